@@ -31,6 +31,9 @@ func cmdBaseline(args []string) int {
 		for _, v := range oc.violations {
 			fmt.Println("  ", v)
 		}
+		for _, u := range oc.undecided {
+			fmt.Println("  ", u)
+		}
 	}
 	b, _ := json.MarshalIndent(cur, "", " ")
 	os.WriteFile(filepath.Join(verifDir, "expected_obligations.json"), b, 0o644)
